@@ -65,6 +65,10 @@ def classify_common(rec):
         return "F24-dangling-generated-alias"
     if v == "sql-err" and rec["program"].meta.get("let_at") and re.search(r"no such column: x\d+", str(rec.get("sqlite"))) and re.search(r"p0 AS \(SELECT \*", sql):
         return "F36-let-table-star-loses-derived-name"
+    if v == "sql-err" and rec["program"].meta.get("let_at"):
+        m = re.search(r"no such column: (x\d+)\b", str(rec.get("sqlite")))
+        if m and re.search(r" AS %s\b" % m.group(1), sql) and re.search(r"\) SELECT (?:(?!SELECT ).)* ORDER BY (?:(?!SELECT ).)*\b%s\b" % m.group(1), sql):
+            return "F46-order-by-unexported-alias"
     if v == "sql-err" and "join" in kinds and re.search(r"no such column: \w+\._expr_\d+", str(rec.get("sqlite"))) and re.search(r"ORDER BY [^()]*\b\w+\._expr_\d+", sql):
         return "F38-order-by-qualified-generated-alias"
     if v == "sql-err" and rec["program"].meta.get("let_at") and re.search(r"no such column: [a-z]+\b", str(rec.get("sqlite"))) and re.search(r"WITH p0 AS \(SELECT (?!\*)", sql):
@@ -172,6 +176,15 @@ def directed_known(rng=None):
         S("win", "derive {x907 = lag 1 x906}", "TWin [(false, %s)] [(Some %d%%N, WLag 1, %s)]" % (col("id"), n("x907"), col("x906")), fn="WLag 1"),
         S("filter", "filter (c < 3)", "TFilter (EBin Lt (%s) (ELit (VInt 3)))" % col("c")),
         sel(["b", "x906", "x907"])], True, ["b", "x906", "x907"], {"order": [(False, ("col", None, "id"))], "key_pos": None})))
+    # F46: the final ORDER BY is re-targeted to a user alias of the sort column (x915 = id) defined inside a let-bound prefix,
+    # which the CTEs between the let and the main query do not carry (residue of the class repaired by c83467e)
+    out.append(("F46-order-by-unexported-alias", P.Program([
+        S("select", "select {id, b, x915 = id}", "TSelect [(None, %s); (None, %s); (Some %d%%N, %s)]" % (col("id"), col("b"), n("x915"), col("id"))),
+        S("filter", "filter (id != 0)", "TFilter (EBin Ne (%s) (ELit (VInt 0)))" % col("id")),
+        S("sort", "sort {b, id}", "TSort [(false, %s); (false, %s)]" % (col("b"), col("id")), keys=[(False, ("col", None, "b")), (False, ("col", None, "id"))]),
+        S("select", "select {b, x916 = (b + 1)}", "TSelect [(None, %s); (Some %d%%N, EBin Add (%s) (ELit (VInt 1)))]" % (col("b"), n("x916"), col("b"))),
+        S("filter", "filter (b > 0)", "TFilter (EBin Gt (%s) (ELit (VInt 0)))" % col("b")),
+        sel(["b", "x916"])], False, ["b", "x916"], {"let_at": 3})))
     # F44: inside a group body the sort survives an aggregate; what follows the aggregate drags the sort column into the
     # aggregating SELECT (a bare column next to GROUP BY: SQLite picks an arbitrary row, stricter engines reject the query)
     out.append(("F44-grouped-aggregate-keeps-sort", P.Program([
